@@ -1979,6 +1979,12 @@ func (r *Raft) installSnapshot(rpc RPC, req *InstallSnapshotRequest) {
 	if mlogs, ok := r.logs.(MonotonicLogStore); ok && mlogs.IsMonotonic() {
 		if err := r.removeOldLogs(); err != nil {
 			r.logger.Error("failed to reset logs", "error", err)
+		} else {
+			// The whole log is gone, including any entries we held past the
+			// snapshot. Forget the cached last log entry as well, otherwise we
+			// keep reporting (and matching AppendEntries against) an index that
+			// no longer exists anywhere. restoreUserSnapshot does the same.
+			r.setLastLog(req.LastLogIndex, req.LastLogTerm)
 		}
 	} else if err := r.compactLogs(req.LastLogIndex); err != nil {
 		r.logger.Error("failed to compact logs", "error", err)
